@@ -1,6 +1,7 @@
 """C09, bounded run-time tier (tier C): bootstrap samples are faithful with-replacement resamples of whole groups.
 
-How the random draws are covered.  The draws are NOT sampled.  Inside each oracle `np.random.randint` (the only source of
+How the random draws are covered.  The draws are NOT sampled (except in the domain C09/larger-sizes-sampled, labelled so).
+Inside each oracle `np.random.randint` (the only source of
 randomness of inference/bootstrap.py) is replaced by a scripted chooser and restored afterwards (try/finally).  The chooser
 records, for every number asked for, the admissible range (low, high); the oracle then re-runs the real function once for
 EVERY possible outcome of all the numbers drawn (depth-first odometer over the recorded ranges, no assumption on how often or
@@ -38,6 +39,34 @@ oracles and the clauses of the property they cover
                        afterwards) and unbalanced group sizes each GROUP (not each RDM / condition) is selected N times on
                        average in N draws; generous threshold of 6 standard deviations of the binomial count.
 
+Dimension sweeps (laid over ALL groupings of one or two small sizes, see _sweep_variants / _direct_variants; every expected value
+is still the literal statement: the sample entry is the stored source value, whatever its type, unit or sign).  Case keys:
+  values           dtype of the source dissimilarities (uint8 / int16 / int64 / float32: the sample must hold the same VALUES, and NaN
+                   for copy pairs, which an integer array cannot hold), 'tiny' / 'huge' (sentinels * 1e-20 / * 1e12: a NaN rule based
+                   on an absolute threshold, a narrower float), 'zero-neg' (a true dissimilarity of 0 between two DIFFERENT conditions
+                   stays 0: "no other entry becomes NaN"; negative values as of crossnobis), 'nan-source' (an entry that is NaN in the
+                   source is NaN in the sample and not replaced)
+  container        + 'tuple', 'nplist' (python list of numpy scalars), 'array-uint8 / int16 / int32 / object' (typed label arrays);
+                   pred_container: the prediction stores the same descriptors in another container than the data
+  label kinds      + 'bigint' (beyond 32 bit, negative, 0), 'substr' (labels that are prefixes / single characters of other labels)
+  vector_desc      vector-valued (2-D) descriptors beside a grouping descriptor; desc_order: grouping descriptor first in the dict
+  rindex / pindex  user supplied 'index' descriptors that are not 0..n-1 (as left by subset_pattern), drawn with the default arguments
+  vtype            + values asked for as list of numpy scalars, object / uint8 / int32 / int64 arrays (direct calls)
+  held, twice, then_other, then_relabel, other_source
+                   call sequences (the quantifier ranges over histories): the result of the previous call is checked again after the
+                   next call; the same draws are asked for again after the caller overwrote the values of the sample it got; a second
+                   source object of the same shape with other content / grouping goes through the same outcomes; the caller assigns a
+                   new grouping descriptor on the same object in place and draws again
+  sampled          C09/larger-sizes-sampled: n_rdm up to 12 (30), n_cond up to 13 (40), groupings whose sizes differ by a remainder,
+                   repeated non-contiguous runs; NOT all outcomes but 5 constructed + seeded random ones (domain labelled so)
+Not swept, because the statement implies no definite result: another PYTHONHASHSEED / interpreter (no clause fixes the order of the
+groups or of the items of a sample, and every outcome of the draws is enumerated whatever that order is); that the inputs are unchanged
+(C12) -- though every outcome is drawn from the SAME source object, so that a source modified by a call fails on the next outcome.
+
+PENDING TRIAGE (registered behind `if False`): default-index,user-supplied-index,prediction-of-ModelFixed -- ModelFixed.__init__
+overwrites the 'index' pattern descriptor of the RDMs object it is given with 0..n-1; when the data carry another index and the
+default descriptor is used, the prediction resampled with the returned indices holds no / other conditions than the sample.
+
 A case is one input (sizes, explicit label lists, container); the oracle enumerates the outcomes / value vectors itself and
 reports how many fail and the first failing one (enumeration of a case stops after MAX_FAILS failures).  The optional case key
 'script' (list of scripted draws) or 'value' (one value vector) restricts a replay to that single outcome.
@@ -45,11 +74,10 @@ reports how many fail and the first failing one (enumeration of a case stops aft
 What is deliberately not demanded: the ORDER of RDMs / conditions inside the sample (the statement fixes only the order
 agreement between sample and resampled prediction, which is checked), the container type of the descriptors of the sample.
 
-NOT covered by this tier: sizes beyond n_rdm <= 4 / n_cond <= 5 and descriptor values other than int / str scalars
-(float, None, tuples); the uniformity of numpy's generator itself (assumed contract of the dependency; C09/frequency-smoke is
+NOT covered by this tier: ALL outcomes for sizes beyond n_rdm <= 4 / n_cond <= 5 (larger sizes: selected outcomes only); descriptor
+values other than int / str scalars (float, None, tuples); the uniformity of numpy's generator itself (assumed contract of the dependency; C09/frequency-smoke is
 only a smoke test); randomness taken from any source other than np.random.randint (reported as a failure because the
-enumeration would be incomplete); source RDMs that already contain NaN; that inputs are not modified (C12); the callers that
-rely on the order agreement (C04).
+enumeration would be incomplete); that inputs are not modified (C12); the callers that rely on the order agreement (C04).
 """
 import itertools
 
@@ -928,6 +956,8 @@ def tier_c(run, thorough):
         for cont, rindex in (('list', USER_INDEX), ('array', USER_INDEX), ('tuple', ONE_BASED), ('array-int16', USER_INDEX)):
             case = dict(n_rdm=n_rdm, n_cond=n_cond, rg=None, pg=None, container=cont, default_args=True,
                         rindex=rindex[:n_rdm], pindex=USER_INDEX[:n_cond], held=True)
+            if cont == 'array':
+                case['desc_order'] = 'group-first'       # the index is the first key of the descriptor dicts
             bd.check(orc_rdm, case, f'default-index,{cont},user-supplied-index', function='bootstrap_sample_rdm')
     bd.done()
     bds.append(bd)
@@ -969,6 +999,8 @@ def tier_c(run, thorough):
         for cont, pindex in (('list', USER_INDEX), ('array', USER_INDEX), ('tuple', ONE_BASED), ('array-int16', USER_INDEX)):
             case = dict(n_rdm=n_rdm, n_cond=n_cond, rg=None, pg=None, container=cont, default_args=True,
                         rindex=USER_INDEX[:n_rdm], pindex=pindex[:n_cond], held=True, pred='rdms')
+            if cont == 'array':
+                case['desc_order'] = 'group-first'
             bd.check(orc_pattern, case, f'default-index,{cont},user-supplied-index', function='bootstrap_sample_pattern')
             if False:  # pending triage: default-index,user-supplied-index,prediction-of-ModelFixed
                 # ModelFixed.__init__ overwrites the 'index' pattern descriptor of the RDMs it is given with 0..n-1, so the
@@ -1016,6 +1048,8 @@ def tier_c(run, thorough):
         for cont, index in (('list', USER_INDEX), ('array', USER_INDEX), ('tuple', ONE_BASED), ('array-int16', USER_INDEX)):
             case = dict(n_rdm=n_rdm, n_cond=n_cond, rg=None, pg=None, container=cont, default_args=True,
                         rindex=index[1:n_rdm + 1], pindex=index[:n_cond], held=True, pred='rdms')
+            if cont == 'array':
+                case['desc_order'] = 'group-first'
             bd.check(orc_joint, case, f'default-index,{cont},user-supplied-index', function='bootstrap_sample')
             if False:  # pending triage: default-index,user-supplied-index,prediction-of-ModelFixed
                 bd.check(orc_joint, dict(case, pred='model'), 'default-index,user-supplied-index,prediction-of-ModelFixed',
